@@ -226,6 +226,9 @@ func (o *LogDirReader) loopWithError(ctx context.Context) error {
 
 			if done.filePath == mainLogPath {
 				mainLog.setOffset(done.numBytesRead)
+				// Remember how much of the main log has been seen so
+				// that a truncation right after startup is noticed.
+				mainLog.lastSz = done.numBytesRead
 			}
 
 			if initFileIndex > len(o.initFileNames)-1 {
